@@ -115,7 +115,7 @@ func Predict(op *Op) *Expected {
 		// stream-turn logs are not level-filtered by the collector
 		logs := st.Logs
 		switch st.Act {
-		case "emit":
+		case "emit", "emitunsealable": // (on a pipe the state is never serialised)
 			rows := 1
 			if st.Rows > 1 {
 				rows = st.Rows
